@@ -128,7 +128,7 @@ fn shim_fmt_pad<const A: usize>(x: u32) -> (r: String)
 fn shim_sort_unstable_by<F: Fn(&IndexEntry, &IndexEntry) -> Ordering>(v: &mut Vec<IndexEntry>, compare: F)
     requires
         forall|a: &IndexEntry, b: &IndexEntry, o: Ordering| #[trigger] compare.ensures((a, b), o)
-            ==> o == doc_cmp(a.apath.comps(), b.apath.comps()), //# C11.hunk_sorted_by_documented_order
+            ==> o == doc_cmp(a.apath.comps(), b.apath.comps()), //# C11.hunk_sorted_by_documented_order,C08+C18+C02.stored_index_in_documented_order
         forall|i: int, j: int| 0 <= i < old(v)@.len() && 0 <= j < old(v)@.len() && i != j
             ==> compare.requires((&#[trigger] old(v)@[i], &#[trigger] old(v)@[j])), //# C11.hunk_entries_distinct
     ensures
